@@ -82,6 +82,9 @@ func c07sched(c *core.Ctx) {
 				vsched.Failf("a message published after the client had received the UNSUBACK was still delivered to it: %s", Describe(r.pkts))
 				return
 			}
+			if t.badStream() {
+				return
+			}
 			vsched.Logf("ok")
 		}})
 		scs = append(scs, scen{"probe published the moment the SUBACK arrives" + suffix, func() {
@@ -113,6 +116,9 @@ func c07sched(c *core.Ctx) {
 			before, after := probesIn(r, "t")
 			if before != 0 || after != 1 {
 				vsched.Failf("a message published after the client had received the SUBACK was delivered %d times (and %d times before the SUBACK): %s", after, before, Describe(r.pkts))
+				return
+			}
+			if t.badStream() {
 				return
 			}
 			vsched.Logf("ok")
@@ -189,6 +195,9 @@ func c07sched(c *core.Ctx) {
 			}
 			if kind != "UNSUBSCRIBE" && (n != 1 || q != 0) {
 				vsched.Failf("a later publish on the re-subscribed filter (granted QoS 0) was delivered %d times at QoS %d", n, q)
+				return
+			}
+			if t.badStream() {
 				return
 			}
 			vsched.Logf("ok")
